@@ -47,7 +47,7 @@ func c13F19Attempt(forced bool) (lost bool, detail string) {
 		<-started
 		if forced {
 			mu := e.GetLock()
-			deadline := time.Now().Add(2 * time.Second)
+			deadline := time.Now().Add(10 * time.Second)
 			for time.Now().Before(deadline) {
 				if mu.TryRLock() {
 					mu.RUnlock()
@@ -188,7 +188,7 @@ func c13F20Forced(ka, kb int32) (ra, rb, later, timedOut bool) {
 	select {
 	case <-aBlocked:
 	case <-aDone:
-	case <-time.After(2 * time.Second):
+	case <-time.After(10 * time.Second):
 	}
 	atomic.StoreInt32(&phase, 2)
 	wg.Add(1)
@@ -200,7 +200,7 @@ func c13F20Forced(ka, kb int32) (ra, rb, later, timedOut bool) {
 	go func() { wg.Wait(); close(fin) }()
 	select {
 	case <-fin:
-	case <-time.After(2 * time.Second):
+	case <-time.After(10 * time.Second):
 		timedOut = true
 		close(abort)
 		<-fin
